@@ -194,7 +194,7 @@ Definition cdelete_single (x : cst) (script : nat -> N -> hres) (nh : nat) (n : 
     let '(x1, log', ok) := crun_handlers x0 script 0 nh n log in
     if ok then
       let s1 := c_st x1 in
-      (CSt (pend_del (write (write s1 [WDelH id]) [WDelI n]) n)
+      (CSt (pend_del (write s1 [WDelH id; WDelI n]) n)
            (delete id (c_hc x1)) (delete n (c_ic x1)) (S (c_tick x1)), log', true)
     else (x1, log', false)
   end.
